@@ -1675,6 +1675,159 @@ CORPUS_INTEGRAL = [
 ]
 
 
+# ------------------------------------------------------------------------------------------------ huge batches (size axis)
+# Batch sizes on a GEOMETRIC scale (2^k + r), far beyond every size the cache-machine cases use, plus sizes just above every
+# numeric class attribute / module constant of Function.py found at run time (gates a change may introduce). Cost O(sample):
+# the batch is evaluated once (vectorised), values are compared with the scalar eval of a fresh instance on a strided sample,
+# the first/last 3 points and the neighbours of every power of two; the cache clauses are checked on the same sample.
+HUGE_CLASSES = ['GenzGaussian', 'FunctionPolynomial', 'FunctionExpVar', 'GenzDiscontinious2']
+
+
+def huge_points(np, n, d):
+    """n DISTINCT points of [0,1)^d, reproducible from (n, d): first coordinate i / 2^19, the others from a linear congruence"""
+    i = np.arange(n, dtype=np.int64)
+    cols = [i / float(2 ** 19)]
+    for k in range(1, d):
+        cols.append(((i * (7919 + 2 * k) + 104729 * k) % 65536) / 65536.0)
+    return np.stack(cols, axis=1)
+
+
+def huge_sample(n):
+    idx = set(range(min(3, n))) | set(range(max(0, n - 3), n)) | set(range(0, n, max(1, n // 48)))
+    k = 1
+    while k <= n:
+        idx |= {j for j in (k - 2, k - 1, k, k + 1) if 0 <= j < n}
+        k *= 2
+    return sorted(idx)
+
+
+def scan_gates():
+    """ints >= 64 among the class attributes of Function and its subclasses and the module constants of sparseSpACE.Function"""
+    import sparseSpACE.Function as F
+    gates = {}
+    for name, obj in vars(F).items():
+        if isinstance(obj, int) and not isinstance(obj, bool) and 64 <= obj <= 2 ** 19:
+            gates['Function.py:' + name] = int(obj)
+        if isinstance(obj, type) and issubclass(obj, F.Function):
+            for a_, v_ in vars(obj).items():
+                if isinstance(v_, int) and not isinstance(v_, bool) and 64 <= v_ <= 2 ** 19:
+                    gates['%s.%s' % (name, a_)] = int(v_)
+    return gates
+
+
+def impl_scan_gates(_case):
+    return scan_gates()
+
+
+def impl_huge(case):
+    import numpy as np
+    spec, n, d = case['fn'], case['n'], case['dim']
+    f = build(spec)
+    olen = int(f.output_length())
+    P = huge_points(np, n, d)
+    pts = [tuple(float(x) for x in row) for row in P]
+    sample = huge_sample(n)
+    g = build(spec)
+    ref = [_norm_value(g.eval(pts[i])) for i in sample]
+    res = {'olen': olen, 'sample': sample, 'ref': ref}
+    try:
+        r = f(pts if case.get('form', 'tuple') == 'tuple' else P)
+        res['batch'] = {'st': 'ok', 'shape': list(np.shape(r)), 'vals': [[float(x) for x in np.asarray(r[i], dtype=float).ravel()] for i in sample] if np.shape(r)[:1] == (n,) else []}
+    except Exception as e:
+        res['batch'] = _exc_record(e)
+    res['size_after_batch'] = int(f.get_f_dict_size())
+    singles = []
+    for i in sample:                      # cache hits: must agree with eval and must not change the counter
+        try:
+            singles.append([float(x) for x in np.asarray(f(pts[i]), dtype=float).ravel()])
+        except Exception as e:
+            singles.append(['exc', type(e).__name__])
+    res['singles'] = singles
+    res['size_after_singles'] = int(f.get_f_dict_size())
+    try:
+        v = np.asarray(f.eval_vectorized(P), dtype=float)
+        res['vec'] = {'st': 'ok', 'shape': list(v.shape), 'vals': [[float(x) for x in np.atleast_1d(v[i]).ravel()] for i in sample] if v.shape[:1] == (n,) else []}
+    except Exception as e:
+        res['vec'] = _exc_record(e)
+    return res
+
+
+def gen_huge_cases(rng, gates):
+    sizes = []
+    for k in range(8, 18):
+        sizes.append((2 ** k + rng.choice([-1, 0, 1, 3, 1000]), '2^%d+r' % k))
+    for name, gv in sorted(gates.items()):
+        for n_ in (gv + 1, gv + 3, 2 * gv + 1):
+            if n_ <= 2 ** 19:
+                sizes.append((n_, 'above ' + name))
+    cases = []
+    for j, (n, why) in enumerate(sizes):
+        cls = HUGE_CLASSES[(j + rng.randrange(4)) % 4]
+        d = rng.choice([1, 2, 3])
+        fn, _dom = gen_fn(rng, d, cls)
+        if cls == 'GenzDiscontinious2':
+            fn['p']['coeffs'] = [abs(x) for x in fn['p']['coeffs']]
+        cases.append({'kind': 'huge', 'fn': fn, 'dim': d, 'n': int(n), 'why': why, 'form': rng.choice(['tuple', 'tuple', 'ndarray'])})
+    return cases
+
+
+def oracle_huge(case, r):
+    """Property predicate on one huge batch. Returns list of (kind, sig, detail)."""
+    n, olen = case['n'], r['olen']
+    bad = []
+    sig0 = {'op': 'batch', 'big': True, 'size': '2^%d..' % (n.bit_length() - 1)}
+    b = r['batch']
+    if b['st'] != 'ok':
+        return [('call-raises', dict(sig0, exc=b['exc'], cache_on=True, empty=False), dict(n=n, msg=b.get('msg')))]
+    if b['shape'] != [n, olen]:
+        bad.append(('shape-differs', {'op': 'batch', 'empty': False, 'big': True}, dict(n=n, shape=b['shape'], expected=[n, olen])))
+    else:
+        for i, got, exp in zip(r['sample'], b['vals'], r['ref']):
+            if not close_list(got, exp):
+                bad.append(('value-differs', dict(sig0, cache_on=True, other_dimension_before=False, several_objects=False),
+                            dict(n=n, index=i, point='huge_points(n, dim)[%d]' % i, returned=got, direct_eval=exp)))
+                break
+    if r['size_after_batch'] != n or r['size_after_singles'] != n:
+        bad.append(('counter-differs', {'op': 'batch', 'several_objects': False, 'big': True},
+                    dict(n=n, distinct_points=n, after_batch=r['size_after_batch'], after_cache_hits=r['size_after_singles'])))
+    for i, got, exp in zip(r['sample'], r['singles'], r['ref']):
+        if got[:1] == ['exc'] or not close_list(got, exp):
+            bad.append(('value-differs', {'op': 'single', 'cache_on': True, 'other_dimension_before': False, 'several_objects': False, 'big': True,
+                                          'after': 'huge batch'}, dict(n=n, index=i, returned=got, direct_eval=exp)))
+            break
+    v = r['vec']
+    if v['st'] == 'ok' and v['shape'][:1] == [n]:
+        for i, got, exp in zip(r['sample'], v['vals'], r['ref']):
+            if not close_list(got, exp):
+                bad.append(('value-differs', {'op': 'vec', 'cache_on': True, 'other_dimension_before': False, 'several_objects': False, 'big': True},
+                            dict(n=n, index=i, returned=got, direct_eval=exp)))
+                break
+    elif v['st'] != 'ok':
+        bad.append(('call-raises', {'exc': v['exc'], 'op': 'vec', 'cache_on': True, 'empty': False, 'big': True}, dict(n=n, msg=v.get('msg'))))
+    return bad
+
+
+def check_huge_cases(chk):
+    st, gates = run_impl(impl_scan_gates, [None])[0]
+    gates = gates if st == 'ok' else {}
+    chk.extra['numeric_class_attributes_and_module_constants_of_Function_py'] = gates
+    cases = gen_huge_cases(chk.rng, gates)
+    impl = run_impl(impl_huge, cases, limit=240)
+    keys = []
+    for c, (st, r) in zip(cases, impl):
+        chk.count('huge:size=2^%d..' % (c['n'].bit_length() - 1))
+        chk.count('huge:cls=' + c['fn']['cls'])
+        chk.count('huge:why=' + ('geometric' if c['why'].startswith('2^') else 'above-a-constant-of-the-code'))
+        if st != 'ok':
+            chk.violation('corr:C12/huge_batch', 'worker-failed', {'status': st}, c, dict(impl=str(r)), failing_input=False)
+            continue
+        chk.traces += 1
+        for kind, sig, detail in oracle_huge(c, r):
+            chk.violation('oracle:cache_transparent', kind, sig, c, detail)
+        keys.append(('huge', c['fn']['cls'], c['n'], c['dim']))
+    return cases, keys
+
+
 def _tab_wire(tab):
     return [[[sx.rat(x) for x in k], [sx.rat(x) for x in v]] for k, v in tab]
 
@@ -2260,7 +2413,10 @@ def run(chk):
     k1, s1 = check_cache_cases(chk, ccases)
     t1 = time.time()
     k2, s2 = check_integral_cases(chk, icases)
-    chk.extra['phase_seconds'] = dict(cache_histories=round(t1 - t0, 1), integrals=round(time.time() - t1, 1), shrinking=round(_SHRINK_T[0], 1))
+    t2 = time.time()
+    hcases, k3 = check_huge_cases(chk)
+    chk.extra['phase_seconds'] = dict(cache_histories=round(t1 - t0, 1), integrals=round(t2 - t1, 1), huge_batches=round(time.time() - t2, 1),
+                                      shrinking=round(_SHRINK_T[0], 1))
     chk.extra['tolerances'] = dict(values_rtol=RTOL, values_atol=ATOL, integral_rtol=INT_RTOL, scipy_quadrature_rtol=1e-6,
                                    simplex_indicator_rtol=2e-2)
     _c12_gen.finish(chk, gen_info, gen_problem)     # broken source-derived obligation and no concrete failing input found above
@@ -2283,11 +2439,27 @@ def run(chk):
                      'classes with boxes of 2..3 different dimensions on one object; each analytic value compared with quadrature of the scalar '
                      'eval of a fresh instance, with the analytic value of a fresh instance and with the same quadrature through the object\'s '
                      'eval_vectorized and batch call; non-trivial = some box with d >= 2 (or a 1-d-only class); distinct by (class, params, boxes)', s2)
+    chk.record_cases(len(hcases), k3,
+                     'huge batches: sizes 2^k + r (k = 8..17, r in {-1,0,1,3,1000}, one per k) and gate+1, gate+3, 2*gate+1 for every integer >= 64 '
+                     'found at run time among the class attributes / module constants of Function.py, n distinct points, classes GenzGaussian / '
+                     'FunctionPolynomial / FunctionExpVar / GenzDiscontinious2; batch call, cache hits and direct eval_vectorized compared with the '
+                     'scalar eval of a fresh instance on a strided sample + first/last 3 points + neighbours of every power of two; counter = n',
+                     [dict(n=c_['n'], why=c_['why'], cls=c_['fn']['cls']) for c_ in hcases[-3:]])
 
 
 def replay(chk, rep):
     c = rep['case']
     rc = 0
+    if c['kind'] == 'huge':
+        st, r = run_impl(impl_huge, [c], limit=240)[0]
+        print('impl:', st, 'batch of %d points (huge_points(n=%d, dim=%d)), class %s' % (c['n'], c['n'], c['dim'], c['fn']))
+        if st != 'ok':
+            print(r); return 1
+        for kind, sig, detail in oracle_huge(c, r):
+            print('property predicate violated:', kind, sig, detail); rc = 1
+        if not rc:
+            print('property predicate: holds')
+        return rc
     if c['kind'] == 'cache':
         st, r = run_impl(impl_cache, [c])[0]
         print('impl:', st)
